@@ -233,8 +233,8 @@ class I3EnergyPDF(
 
             log_energy : float
                 The base-10 logarithm of the energy value of the data event.
-            dec : float
-                The declination of the data event.
+            sin_dec : float
+                The sin(declination) value of the data event.
 
         tl : instance of TimeLord | None
             The optional instance of TimeLord for measuring timing information.
@@ -249,7 +249,10 @@ class I3EnergyPDF(
         sin_dec_binning = self.get_binning('sin_dec')
 
         data_log10_energy = tdm['log_energy']
-        data_sin_dec = np.sin(tdm['dec'])
+        # Check the data field that is used by the get_pd method to lookup the
+        # histogram bin. A sin(dec) value calculated here from the declination
+        # can differ from it by rounding.
+        data_sin_dec = tdm['sin_dec']
 
         if log10_energy_binning.any_data_out_of_range(data_log10_energy):
             oor_data = log10_energy_binning.get_out_of_range_data(
